@@ -36,12 +36,28 @@ def generate(rng, tier):
         n = rng.randint(5, 200)
         pool = rng.sample(CODES, rng.randint(1, 4))
         yield {"fam": "infer", "tags": [rng.choice(pool) for _ in range(n)], "variant": rng.randint(0, 3)}
+    # long sequences of values that are EQUAL across types (0 == 0.0 == False == 0j, 1 == 1.0 == True): anything that
+    # looks at distinct values instead of elements (sets, dict.fromkeys, memoisation by value) merges them
+    for _ in range(60 if tier == "quick" else 1500):
+        n = rng.choice([5, 40, 257, 300, 700])
+        kinds = rng.sample([1, 2, 3, 4], rng.randint(2, 3))
+        wide = max(kinds)
+        tags = [rng.choice([k for k in kinds if k != wide]) for _ in range(n)]
+        tags.insert(rng.randrange(n + 1), wide)          # the widest type occurs exactly once, anywhere
+        if rng.random() < 0.3:
+            tags.insert(rng.randrange(len(tags)), 0)
+        yield {"fam": "infer", "tags": tags, "variant": 0, "pool": "equal"}
     for i in range(200 if tier == "quick" else 4000):
         yield {"fam": "result", "op": rng.choice(["add", "mul", "truediv", "radd", "join", "aggregate", "csv", "neg", "window", "scalar", "scalar", "rscalar", "tscalar"]),
                "a": [rng.choice([0, 1, 2, 3]) for _ in range(rng.randint(1, 5))], "seed": rng.randint(0, 10**6)}
 
 
+EQUAL_POOL = {0: None, 1: True, 2: 1, 3: 1.0, 4: 1 + 0j}
+
+
 def _values(spec):
+    if spec.get("pool") == "equal":
+        return [EQUAL_POOL[c] for c in spec["tags"]]
     return [value_of(c, spec.get("variant", 0) + i) for i, c in enumerate(spec["tags"])]
 
 
@@ -117,7 +133,7 @@ def _result(spec):
             r = rng.choice(f(over="k", sum_over="x", mean_over="x", max_over="x", count_over="x").cols())
         elif op == "csv":
             cells = ["", "1", "2.5", "x", " 7 "]
-            rows = [[rng.choice(cells) for _ in range(2)] for _ in a]
+            rows = [[rng.choice(cells) for _ in range(rng.choice([2, 2, 1, 3]))] for _ in a]     # jagged records too
             text = "p,q\n" + "\n".join(",".join(r) for r in rows) + "\n"
             t = read_csv(io.StringIO(text))
             cols = t.cols()
